@@ -247,9 +247,9 @@ impl Property for C16 {
                 let a = SocketAddrV6::new(Ipv6Addr::from(*ip), *port, *flow, *scope);
                 let nt = *flow != 0 || *scope != 0;
                 if *either {
-                    (round_trip(&SocketAddr::V6(a), Some(28), 28, |x, y| x == y, |x| format!("{x} flow {flow} scope {scope}"), false, false), "either-v6", nt)
+                    (round_trip(&SocketAddr::V6(a), Some(28), 28, |x, y| x == y, |x| match x { SocketAddr::V6(v) => format!("{x} flow {} scope {}", v.flowinfo(), v.scope_id()), SocketAddr::V4(_) => format!("{x} (IPv4)") }, false, false), "either-v6", nt)
                 } else {
-                    (round_trip(&a, Some(28), 28, |x, y| x == y, |x| format!("{x} flow {flow} scope {scope}"), false, false), "v6", nt)
+                    (round_trip(&a, Some(28), 28, |x, y| x == y, |x| format!("{x} flow {} scope {}", x.flowinfo(), x.scope_id()), false, false), "v6", nt)
                 }
             }
             Case::UnixPath { path } => match UnixAddr::from_pathname(Path::new(std::ffi::OsStr::from_bytes(path))) {
